@@ -12,6 +12,7 @@ package main
 
 import (
 	"fmt"
+	"regexp"
 	"sort"
 	"strings"
 
@@ -313,6 +314,7 @@ func c06CapsuleEquals(j *c06Judge) {
 		// sets of capsule-bearing members: the producer the strict duplicate clause is about
 		ms := []cty.Value{a, b, genVal(ctx.R, t, 2, o)}
 		j.produce("SetVal:capsules", c06Lit("cty.SetVal", ms...), func() cty.Value { return cty.SetVal(ms) })
+		c06CorrSetValC(ctx, ms)
 		j.produce("ListVal:capsules", c06Lit("cty.ListVal", ms...), func() cty.Value {
 			return cty.ListVal([]cty.Value{cty.SetVal(ms[:2]), cty.SetVal(ms[1:])})
 		})
@@ -340,4 +342,64 @@ func c06SelfTestD06(ctx *Ctx) {
 		ctx.Add("wfc", c.want, c.wire, c.bad, c.caps)
 		ctx.Tag("selftest:d06")
 	}
+}
+
+// ---- SetVal on capsule-bearing members against the model on the relabelled members -----------------
+
+var c06CapTyRe = regexp.MustCompile(`\(C \d+\)`)
+
+// c06Relabel is `D06.decap` on the wire: capsule types read as tuple [number], the k-th capsule leaf
+// replaced by the one-element tuple holding its tag.
+func c06Relabel(wire string, ids []int) string {
+	wire = c06CapTyRe.ReplaceAllString(wire, "(T N)")
+	var sb strings.Builder
+	k := 0
+	for {
+		i := strings.Index(wire, "(cap)")
+		if i < 0 {
+			break
+		}
+		sb.WriteString(wire[:i])
+		tag := 0
+		if k < len(ids) {
+			tag = ids[k]
+		}
+		e := 0 // `Num.ofNat`: odd mantissa (tags are >= 1)
+		for tag > 0 && tag%2 == 0 {
+			tag /= 2
+			e++
+		}
+		fmt.Fprintf(&sb, "(seq (n 0 %d %d 64))", tag, e)
+		k++
+		wire = wire[i+len("(cap)"):]
+	}
+	sb.WriteString(wire)
+	return sb.String()
+}
+
+// c06CorrSetValC: cty.SetVal on members of a capsule-bearing type; the model runs on the members with their
+// capsule leaves tagged, the real result is tagged the same way before it is compared.
+func c06CorrSetValC(ctx *Ctx, ms []cty.Value) {
+	hs := make([]string, len(ms))
+	cols := make([]string, len(ms))
+	for i, m := range ms {
+		hs[i] = hashOracle(m)
+		cols[i] = c06CapCol(m)
+		if hs[i] == "-" || cols[i] == "(bad)" {
+			ctx.Tag("setvalc:oracle-unavailable")
+			return
+		}
+	}
+	out := "panic"
+	var res cty.Value
+	if p, _ := try(func() { res = cty.SetVal(ms) }); !p {
+		var ids []int
+		if p, _ := try(func() { ids = c06CapIDs(res) }); p {
+			ctx.Tag("setvalc:oracle-unavailable")
+			return
+		}
+		out = "ok " + c06Relabel(encVal(res), ids)
+	}
+	ctx.Add("c06.setvalc", out, c06Wires(ms), "("+strings.Join(cols, " ")+")", "("+strings.Join(hs, " ")+")")
+	ctx.Tag("setvalc:" + map[bool]string{true: "panic", false: "ok"}[out == "panic"])
 }
